@@ -65,15 +65,15 @@ static void build_api(Geometry& geo,const std::string& path) {
     geo.finalize();
 }
 
-// ints: op(1 files / 2 api) id ndip nsens | floats: dipoles (pos,moment)*ndip, sensors (xyz)*nsens
+// ints: op(1 files / 2 api) id ndip nsens [old_ordering] | floats: dipoles (pos,moment)*ndip, sensors (xyz)*nsens
 static FWire c06_gain(ll op,Reader& r,FReader& fr) {
-    ll id = r.z(); size_t nd = r.n(), ns = r.n();
+    ll id = r.z(); size_t nd = r.n(), ns = r.n(); const bool old_ordering = !r.done() && r.z()!=0;
     Matrix dip(nd,6); for (size_t i=0;i<nd;++i) for (size_t k=0;k<6;++k) dip(i,k) = fr.x();
     Matrix pos(ns,3); for (size_t i=0;i<ns;++i) for (size_t k=0;k<3;++k) pos(i,k) = fr.x();
     const std::string d = "c" + std::to_string(id);
     FWire out;
     Geometry geo;
-    if (op==1) geo.load(d+"/model.geom",d+"/model.cond");
+    if (op==1) geo.load(d+"/model.geom",d+"/model.cond",old_ordering);
     else       build_api(geo,d+"/api.txt");
     SymMatrix HM = HeadMat(geo);
     HM.invert();
